@@ -118,6 +118,9 @@ func digestListShape(rng *rand.Rand, k int) []cbnt.HashStructure {
 }
 
 // manifestVariant rebuilds BPM and KM of the synthetic Intel image in another shape.
+// the top-level volumes of the bundled synthetic Intel image (set by imagesPart)
+var fakeTopVolumes []topVol
+
 func manifestVariant(rng *rand.Rand, fake []byte, k int) ([]byte, string, bool) {
 	img := append([]byte(nil), fake...)
 	size := uint64(len(img))
@@ -210,6 +213,32 @@ func manifestVariant(rng *rand.Rand, fake []byte, k int) ([]byte, string, bool) 
 			descr += " +" + what
 			break
 		}
+	}
+	// hashed segments that are (ends and starts of) whole neighbour volumes: what VolumeOf(IBB)
+	// is given then touches at the border between the volumes (volumes.go)
+	if nb := neighbours(fakeTopVolumes); k%3 == 2 && len(nb) > 0 {
+		i := nb[rng.Intn(len(nb))]
+		a, b := fakeTopVolumes[i], fakeTopVolumes[i+1]
+		ra, rb := wholeOf(a), wholeOf(b)
+		what := "whole neighbour volumes"
+		if rng.Intn(2) == 0 {
+			ra, rb = tailOf(rng, a), headOf(rng, b)
+			what = "end of a volume + start of its neighbour"
+		}
+		segs := []cbntbootpolicy.IBBSegment{
+			{Base: uint32(base + ra.Offset), Size: uint32(ra.Length)},
+			{Base: uint32(base + rb.Offset), Size: uint32(rb.Length)},
+		}
+		if rng.Intn(2) == 0 {
+			segs[0], segs[1] = segs[1], segs[0]
+			what += " (later one first)"
+		}
+		if rng.Intn(2) == 0 {
+			se.IBBSegments = append(se.IBBSegments, segs...)
+		} else {
+			se.IBBSegments = append(segs, se.IBBSegments...)
+		}
+		descr += " +segments: " + what
 	}
 	switch rng.Intn(3) {
 	case 0:
